@@ -147,6 +147,15 @@ def build_cli_cases(scr, callables, cli_only, seed, thorough):
             if thorough:
                 add("doc-slurp-%s-%s" % (fmt, kind), "cli-doc:%s/%s" % (fmt, kind), "--from --slurp file, --to same",
                     ["--from", fmt, "--to", fmt, "-s", ".", path], inputs=[path])
+    # large documents on stdin (a reader that spills big inputs to a temporary file would show here)
+    big = {"yaml": "\n".join("- %d" % i for i in range(30000)) + "\n",
+           "xml": "<r>" + "".join("<e n='%d'>t</e>" % i for i in range(8000)) + "</r>",
+           "toml": "a = [" + ", ".join(str(i) for i in range(30000)) + "]\n",
+           "json": "[" + ",".join(str(i) for i in range(40000)) + "]",
+           "csv": "".join("%d,x,y\n" % i for i in range(12000))}
+    for fmt, text in big.items():
+        add("doc-stdin-big-%s" % fmt, "cli-doc:%s/big-stdin" % fmt, "--from on stdin, > 64 KiB",
+            ["--from", fmt, "-c", "[..] | length"], stdin_hex=hexs(text))
     # local time: the zone database may be read by the local-time filters - and only by them
     tzc = "%s/tz/Custom" % scr
     for tzname, tz in (("UTC", "UTC"), ("Europe/Berlin", "Europe/Berlin"), ("unset", None), ("file", ":" + tzc)):
